@@ -1966,6 +1966,47 @@ func RenameBackOverlay(pkgs []*packages.Package, current map[string][]byte) (map
 				}
 				log = append(log, fmt.Sprintf("renamed locals of %s back to their pinned names", fn.FullName()))
 			}
+			// hygiene: a rename must not change what any identifier refers to. Renaming v to N is
+			// dropped when (a) inside v's scope an identifier N refers to another object (it would now
+			// mean v), or (b) a use of v lies where N already means an object declared inside v's scope
+			// (the use would now mean that object). Found by a repaired twin: `tsOpt, tsErr := ...` was
+			// renamed back to `err`, which captured the `err` a later assignment in the block stores to.
+			for changed := true; changed; {
+				changed = false
+				for o, nm := range rename {
+					sc := o.Parent()
+					if sc == nil {
+						continue
+					}
+					unsafe := false
+					for id, u := range info.Uses {
+						if unsafe {
+							break
+						}
+						if id.Name == nm && u != o && id.Pos() >= o.Pos() && id.Pos() < sc.End() && sc.Contains(id.Pos()) {
+							if n2, renamed := rename[u]; !renamed || n2 == nm {
+								if _, isVar := u.(*types.Var); isVar || u.Parent() != types.Universe {
+									unsafe = true
+								}
+							}
+						}
+						if u == o {
+							if inner := pk.Types.Scope().Innermost(id.Pos()); inner != nil {
+								if _, q := inner.LookupParent(nm, id.Pos()); q != nil && q != o && q.Parent() != nil && q.Parent() != sc && sc.Contains(q.Pos()) && q.Pos() > o.Pos() {
+									if n2, renamed := rename[q]; !renamed || n2 == nm {
+										unsafe = true
+									}
+								}
+							}
+						}
+					}
+					if unsafe {
+						delete(rename, o)
+						changed = true
+						log = append(log, fmt.Sprintf("rename of %s back to %s dropped: it would capture another variable", o.Name(), nm))
+					}
+				}
+			}
 			if len(rename) == 0 {
 				continue
 			}
